@@ -123,6 +123,27 @@ func init() {
 		fr.i.skipExtFor = fr.fn
 		return callSSA(fr.i, fr.caller, token.NoPos, fr.fn, args, nil)
 	}
+	// SplitAmountDenom("<amount><denom>") -> (amount, denom, ok): the inverse of Coin.String for one coin; the amount
+	// may be the marked rendering of a symbolic number.
+	e[v("SplitAmountDenom")] = func(fr *frame, args []value) value {
+		s := argString(args[0])
+		toks := tokenizeMarked(s)
+		if len(toks) == 2 && toks[0].atom != "" && strings.HasPrefix(toks[0].atom, "big:") && toks[1].atom == "" {
+			return tuple{newBigCell(bigSym(toks[0].atom[4:])), toks[1].lit, true}
+		}
+		if isMarked(s) {
+			return tuple{newBigCell(new(big.Int)), "", false}
+		}
+		k := 0
+		for k < len(s) && s[k] >= '0' && s[k] <= '9' {
+			k++
+		}
+		if k == 0 || k == len(s) {
+			return tuple{newBigCell(new(big.Int)), "", false}
+		}
+		n, _ := new(big.Int).SetString(s[:k], 10)
+		return tuple{newBigCell(n), s[k:], true}
+	}
 	e[v("Switch")] = func(fr *frame, args []value) value {
 		fr.i.needState("switch")
 		fr.i.extState["switch:"+argString(args[0])] = args[1].(bool)
